@@ -33,6 +33,38 @@ func (s *Schema) fillDefaultsCtor(t RType, v *Val) *Val {
 	return out
 }
 
+// what the generated constructor does today, derived from the full expectation `want`: a required record-typed field is
+// default-constructed only when ITS record declares a default itself (hasDefaultValue looks at own fields only); otherwise the field
+// keeps the zero value and the defaults further down that chain are not reached
+func (s *Schema) ctorAsGenerated(t RType, zero, want *Val) *Val {
+	if want == nil || zero == nil || t.Reference == nil {
+		return want
+	}
+	n := s.Types[t.Reference.Name]
+	if n == nil || n.Kind != "record" {
+		return want
+	}
+	out := *want
+	out.Incs = append([]*Val{}, want.Incs...)
+	out.Fields = append([]*Val{}, want.Fields...)
+	for i, f := range n.Fields {
+		if f.Type.Reference != nil && s.Types[f.Type.Reference.Name].Kind == "record" && !f.IsOptional && f.DefaultValue == nil {
+			own := false
+			for _, g := range s.Types[f.Type.Reference.Name].Fields {
+				if g.DefaultValue != nil {
+					own = true
+				}
+			}
+			if own {
+				out.Fields[i] = s.ctorAsGenerated(f.Type, zero.Fields[i], want.Fields[i])
+			} else {
+				out.Fields[i] = zero.Fields[i]
+			}
+		}
+	}
+	return &out
+}
+
 func (s *Schema) fill(t RType, v *Val, intoIncludes bool) *Val {
 	return s.fill2(t, v, intoIncludes, true)
 }
